@@ -361,7 +361,7 @@ impl Prop for C11 {
     }
 
     fn rule(&self) -> String {
-        "cases = (C04's generated tree and archive options (incl. an entry without an id in one directory - archive member `backup.tar.x`, on disk a file with a non UTF-8 name - which no listing may show or stumble over); source kind FileSystem / Zip / Tar / Embedded (macro expansion code) / in-memory; element type with extensions [txt] | [txt, x] | [\"\"] | [bin, txt] | Arc of the second | a hand-written DirLoadable whose sub_directories skips directories named a*/d*, plain and in Arc (both must list the same subtree); \
+        "cases = (C04's generated tree and archive options (incl. an entry without an id in one directory - archive member `backup.tar.x`, on disk a file with a non UTF-8 name - which no listing may show or stumble over); source kind FileSystem / Zip / Tar / Embedded (macro expansion code; in half of the cases its table rewritten in another order) / in-memory; element type with extensions [txt] | [txt, x] | [\"\"] | [bin, txt] | Arc of the second | a hand-written DirLoadable whose sub_directories skips directories named a*/d*, plain and in Arc (both must list the same subtree); \
          a set of unreadable directories (read_dir fails for them and everything below); a subset of ids loaded beforehand; directories to query incl. the root and missing ones). \
          Oracle from the tree: load_dir(d).ids() is the sorted duplicate-free list of stems of the files directly in d carrying one of the extensions; load_rec_dir(d).ids() as a set is the union over d and the readable directories below, without duplicates; \
          iter yields one loaded handle per id; iter_cached yields exactly the listed ids that are cached; missing or unreadable directories are errors; unreadable sub-directories do not hide their siblings. \
@@ -440,7 +440,13 @@ impl Prop for C11 {
                     }
                 } else {
                     match trees::expand_embedded(&dir) {
-                        Ok(owned) => EmbeddedHolder::new(owned).with(|e| run_on(e.clone(), &m, &c, &exp, &mut out, &label, &mut flags)),
+                        Ok(mut owned) => {
+                            // in every other case the table is the macro's, written by hand in another order
+                            if c.opts.order % 4 >= 2 {
+                                trees::reorder_embedded(&mut owned, c.opts.order);
+                            }
+                            EmbeddedHolder::new(owned).with(|e| run_on(e.clone(), &m, &c, &exp, &mut out, &label, &mut flags))
+                        }
                         Err(e) => out.fail("expand:embedded", format!("the embed! expansion failed: {e}")),
                     }
                 }
